@@ -7,6 +7,13 @@ use crate::trusted::*;
 use crate::any_vars;
 
 pub open spec fn stack_key() -> String { skey("scope_stack"@) }
+// ---- the line-context name (types/scope.rs): kept under runtime sub-state "line_context_name", entry "name" ----
+pub open spec fn ctx_key() -> String { skey(concat_spec("duckscriptsdk::runtime"@, "line_context_name"@)) }
+/// the current line-context name: the text stored under "name", the empty text when nothing (or something else) is stored
+pub open spec fn ctx_name_of(ctx_state: Map<String, StateValue>) -> Seq<char> {
+    if ctx_state.contains_key(skey("name"@)) && ctx_state[skey("name"@)] is String { ctx_state[skey("name"@)]->String_0@ } else { ""@ }
+}
+pub open spec fn ctx_name(state: Map<String, StateValue>) -> Seq<char> { ctx_name_of(sub_of(state, ctx_key())) }
 pub open spec fn frame_of(v: StateValue) -> Option<Map<String, String>> { if v is Any { any_vars(v->Any_0) } else { None } }
 /// the saved maps, oldest first
 pub open spec fn frames(state: Map<String, StateValue>) -> Seq<Option<Map<String, String>>> {
